@@ -471,6 +471,43 @@ fn c03(seed: u64, _cases: usize, _model_path: &str) -> serde_json::Value {
                 other => failures.push(json!({"property": "C03", "witness": if phase == "output wire shares" && field == "missing" { "C02-a:missing-output-share" } else { "C03:accepted" }, "failure": format!("run completed on a value whose authentication does not verify: {}", short(other)), "case": desc})) }
             if samples.len() < 3 { samples.push(desc.clone()); }
         } } } }
+    // ---- "the share it garbles into a row": a malicious GARBLER produces validly encrypted rows whose share bit is flipped (MACs and label share kept).
+    // Two AND gates over the input wires, so one gate's rows or both gates' rows can lie (a check folded over gates would let two lies cancel).
+    // Keys from the garbler's own taps as in the C08 class: key = x-label ‖ y-label, x offset by delta in rows 2,3, y in rows 1,3; nonce = instruction ‖ row.
+    { use chacha20poly1305::{aead::{Aead, KeyInit}, ChaCha20Poly1305, Key, Nonce}; use std::{cell::RefCell, rc::Rc};
+      for n in [2usize, 3] { for (cl, lie_gates) in [("row_share_bit_one_gate", vec![0usize]), ("row_share_bit_two_gates", vec![0usize, 1])] { for (adv, victim) in [(1usize, 0usize), (0, n - 1)] {
+        let mut insts: Vec<Inst> = (0..n).map(|p| Inst { out: Reg(p as u32), op: Op::Input(Input { party: p as u32, input: 0 }) }).collect();
+        let (g0, g1) = (n as u32, n as u32 + 1);
+        insts.push(Inst { out: Reg(g0), op: Op::And(And(Reg(0), Reg(1))) }); insts.push(Inst { out: Reg(g1), op: Op::And(And(Reg(1), Reg(0))) });
+        let c = Circuit { input_regs: vec![1; n], insts, max_reg_count: n + 2, output_regs: vec![Reg(g0), Reg(g1)], and_ops: 2 };
+        let inputs: Vec<Vec<bool>> = (0..n).map(|_| vec![r.bool()]).collect();
+        let args: Vec<PartyArgs> = (0..n).map(|p| PartyArgs { inputs: inputs[p].clone(), p_eval: victim, p_own: p, p_out: (0..n).collect(), tmp_dir: None }).collect();
+        let taps: Rc<RefCell<Vec<(String, usize, Vec<u128>)>>> = Default::default(); let (t2, t3) = (taps.clone(), taps.clone());
+        let crafted = Rc::new(std::cell::Cell::new(0usize)); let cr2 = crafted.clone(); let lg = lie_gates.clone(); let nn = n;
+        polytune::verif::set_sink(Some(Box::new(move |k, p, v| if k == "delta" || k == "input_label" { t2.borrow_mut().push((k.to_string(), p, v.to_vec())) })));
+        let m: exec::Mutator = Box::new(move |from, to, ph, _k, d| { if from != adv || to != victim || ph != "preprocessed gates" { return Some(d); }
+            let t = t3.borrow(); let get = |k: &str| -> Vec<u128> { t.iter().filter(|x| x.0 == k && x.1 == adv).flat_map(|x| x.2.clone()).collect() };
+            let (delta, inlab) = (get("delta"), get("input_label")); if delta.is_empty() || inlab.len() < 2 { return Some(d); }
+            let mut gates: Vec<[Vec<u8>; 4]> = de(&d);
+            for (gi, g) in gates.iter_mut().enumerate() { if !lg.contains(&gi) { continue; } let (xw, yw) = if gi == 0 { (0usize, 1usize) } else { (1, 0) };
+              for i in 0..4usize {
+                let lx = inlab[xw] ^ if i / 2 == 1 { delta[0] } else { 0 }; let ly = inlab[yw] ^ if i % 2 == 1 { delta[0] } else { 0 };
+                let mut key = [0u8; 32]; key[..16].copy_from_slice(&lx.to_be_bytes()); key[16..].copy_from_slice(&ly.to_be_bytes());
+                let mut nonce = [0u8; 12]; nonce[..8].copy_from_slice(&((nn + gi) as u64).to_be_bytes()); nonce[8] = i as u8;
+                let cipher = ChaCha20Poly1305::new(Key::from_slice(&key));
+                if let Ok(pt) = cipher.decrypt(Nonce::from_slice(&nonce), g[i].as_ref()) { let (rb, macs, label): (bool, Vec<u128>, u128) = de(&pt);
+                    if let Ok(ct) = cipher.encrypt(Nonce::from_slice(&nonce), ser(&(!rb, macs, label)).as_ref()) { g[i] = ct; cr2.set(cr2.get() + 1); } } } }
+            Some(ser(&gates)) });
+        let run = exec::run(&c, &args, &cfg, Some(m)); execs += 1; polytune::verif::set_sink(None); let o = &run.outs[victim];
+        *dist.entry(format!("field:preprocessed gates/{cl}")).or_default() += 1; *dist.entry(format!("outcome:{}", ["ok", "err", "panic", "blocked"][okind(o) as usize])).or_default() += 1; distinct.insert((n, "preprocessed gates", cl, false, adv, victim));
+        let desc = json!({"n": n, "phase": "preprocessed gates", "field": cl, "adversary": format!("garbler({adv})"), "victim": victim, "rows_reencrypted": crafted.get(), "inputs": inputs.iter().map(|v| circ::bits(v)).collect::<Vec<_>>()});
+        if crafted.get() != 4 * lie_gates.len() { failures.push(json!({"property": "C03", "witness": "C03:harness-could-not-craft-row", "failure": "the harness could not re-encrypt the adversary's own rows with the tapped labels", "case": desc})); continue; }
+        if let Out::Ok(v) = o { let allowed: Vec<Vec<bool>> = [false, true].iter().map(|x1| { let mut i = inputs.clone(); i[adv] = vec![*x1]; c.eval(&i) }).collect();
+            if !allowed.contains(v) { failures.push(json!({"property": "C02", "witness": "C02:other", "failure": format!("honest evaluator accepted {} not in {:?}", circ::bits(v), allowed.iter().map(|a| circ::bits(a)).collect::<Vec<_>>()), "case": desc.clone()})); } }
+        match o { Out::Err(_) => {}
+            Out::Panic(msg) => failures.push(json!({"property": "C03", "witness": "C03:panic", "failure": format!("victim panicked instead of returning Err: {msg}"), "case": desc})),
+            other => failures.push(json!({"property": "C03", "witness": "C03:accepted", "failure": format!("run completed although the share garbled into the rows was flipped: {}", short(other)), "case": desc})) }
+      } } } }
     json!({"executions": execs, "distinct_nontrivial": distinct.len(), "distribution": dist, "samples": samples, "model_disagreements": [], "impl_vs_oracle_failures": failures})
 }
 
